@@ -892,7 +892,11 @@ func diskMatrix(names []string, main map[string]bool) []config {
 
 func runSeeded(c config, seed int64, steps int) *world {
 	rng := rand.New(rand.NewSource(seed))
-	w := newWorld(c, "seeded", seed)
+	mode := "seeded"
+	if c.Disk {
+		mode = "disk"
+	}
+	w := newWorld(c, mode, seed)
 	var pool []int // value ids used so far (re-used now and then so that contents and blobs can coincide)
 	randChanges := func(p ver, many bool) []change {
 		n := 1 + rng.Intn(3)
